@@ -232,6 +232,7 @@ def has_nl(term, memo):
     return r
 
 
+RECHECK = {"unsat": 0, "unknown": 0, "sat": 0, "seconds": 0.0}  # cvc5 re-check of discharged queries (thorough tier)
 _NL_MEMO = {}
 _NL_KEEP = []
 
@@ -256,5 +257,22 @@ def prove(assumptions, goal, timeout_ms=None, cvc5_first=False):
         v, s = check_sat(abstracted, timeout_ms, want_model=False, fallback=False)
         if v.status == "unsat":
             v.solver += "(nl-abstracted)"
+            _recheck(s, v)
             return v, s
-    return check_sat(fs, timeout_ms)
+    v, s = check_sat(fs, timeout_ms)
+    if v.status == "unsat":
+        _recheck(s, v)
+    return v, s
+
+
+def _recheck(s, v):
+    """thorough tier (T4): hand every query z3 discharged to cvc5 as well; `sat` from cvc5 is a
+    disagreement between the solvers (checker failure), `unknown` is recorded"""
+    if not os.environ.get("PYVC_RECHECK") or s is None or "cvc5" in v.solver:
+        return
+    st, secs = run_cvc5(s.to_smt2(), int(os.environ.get("PYVC_RECHECK_MS", "15000")))
+    RECHECK[st if st in RECHECK else "unknown"] += 1
+    RECHECK["seconds"] += secs
+    if st == "sat":
+        v.status = "unknown"
+        v.reason = "solver disagreement: z3 unsat, cvc5 sat"
